@@ -1,5 +1,6 @@
 (** * A core semantics for C01: values, events, an adversarial world and the binary-[+] rewriter
-    with the real identifier-mode rule and children-first counter.
+    with the real identifier-mode rule and children-first counter (tied to the implementation by
+    SemTie.v: the check compares [rw] with what the code produces on every core expression tried).
 
     The world is a pair of arbitrary functions of the history: [respond] answers every observable
     interaction (the result of [+] on two values -- which stands for the coercions of both operands --
@@ -27,6 +28,7 @@ Inductive expr :=
 | Tmp (n : nat)
 | Add (l r : expr)
 | CallE (f : expr) (a : expr)                    (* unary call: enough for the spike *)
+| Par (e : expr)                                 (* parentheses written by the user: not an identifier, not a [+] *)
 | Hoist2 (n1 : nat) (e1 : expr) (n2 : nat) (e2 : expr) (body : expr)   (* (t1 = e1, t2 = e2, body) *)
 | Hoist1 (n1 : nat) (e1 : expr) (body : expr)
 | Hook (first : expr) (args : list expr).
@@ -50,13 +52,27 @@ Definition bind (m : out * st) (k : value -> st -> out * st) : out * st :=
   | (Thr v, s) => (Thr v, s)
   end.
 
+(** [+] on two primitive strings is a concatenation: no user code runs, nothing is observable. *)
+Definition pure_add (a b : value) : option value :=
+  match a, b with
+  | VStr x, VStr y => Some (VStr (x ++ y))
+  | _, _ => None
+  end.
+
+Definition do_add (a b : value) (s : st) : out * st :=
+  match pure_add a b with
+  | Some v => (Ret v, s)
+  | None => fire (EvAdd a b) s
+  end.
+
 Fixpoint eval (e : expr) (s : st) : out * st :=
   match e with
   | Lit v => (Ret v, s)
   | Var x => (Ret (ustore (fst s) x), s)
   | Tmp n => (Ret (snd s n), s)
-  | Add l r => bind (eval l s) (fun a s1 => bind (eval r s1) (fun b s2 => fire (EvAdd a b) s2))
+  | Add l r => bind (eval l s) (fun a s1 => bind (eval r s1) (fun b s2 => do_add a b s2))
   | CallE f a => bind (eval f s) (fun vf s1 => bind (eval a s1) (fun va s2 => fire (EvCall vf [va]) s2))
+  | Par e => eval e s
   | Hoist2 n1 e1 n2 e2 body =>
       bind (eval e1 s) (fun v1 s1 =>
       let s1' := (fst s1, upd (snd s1) n1 v1) in
@@ -79,33 +95,67 @@ Fixpoint eval (e : expr) (s : st) : out * st :=
 Definition is_triv (e : expr) : bool := match e with Lit _ | Var _ => true | _ => false end.
 Definition is_lit (e : expr) : bool := match e with Lit _ => true | _ => false end.
 
+(** What happens to an operand of [+] (operand_handler.rs, [replace_expr] with [IdentMode]):
+    - a literal stays and is passed to the hook;
+    - an identifier stays and is passed to the hook when the rule allows it, otherwise it is hoisted:
+      the left one stays iff the right operand is an identifier or a literal, the right one stays
+      unless the (rewritten) left operand is a [+] left in place;
+    - an operand that still is a [+] after its own rewriting (a sum of literals) stays in place and
+      contributes NO argument;
+    - anything else is hoisted into a fresh temporary, which is passed to the hook. *)
+Inductive act := Keep | Stay | Hoist.
+
+Definition left_act (l' r' : expr) : act :=
+  match l' with
+  | Lit _ => Keep
+  | Var _ => if is_triv r' then Keep else Hoist
+  | Add _ _ => Stay
+  | _ => Hoist
+  end.
+
+Definition right_act (l' r' : expr) : act :=
+  match r' with
+  | Lit _ => Keep
+  | Var _ => match l' with Add _ _ => Hoist | _ => Keep end
+  | Add _ _ => Stay
+  | _ => Hoist
+  end.
+
+Definition wrap (binds : list (nat * expr)) (body : expr) : expr :=
+  match binds with
+  | [] => body
+  | [(n1, e1)] => Hoist1 n1 e1 body
+  | (n1, e1) :: (n2, e2) :: _ => Hoist2 n1 e1 n2 e2 body
+  end.
+
+Definition rw_add (l' r' : expr) (c2 : nat) : expr * nat :=
+  let la := left_act l' r' in
+  let ra := right_act l' r' in
+  let '(l2, bl, c3) := match la with Hoist => (Tmp c2, [(c2, l')], S c2) | _ => (l', [], c2) end in
+  let '(r2, br, c4) := match ra with Hoist => (Tmp c3, [(c3, r')], S c3) | _ => (r', [], c3) end in
+  let args := (match la with Stay => [] | _ => [l2] end) ++ (match ra with Stay => [] | _ => [r2] end) in
+  if forallb is_lit args then (Add l' r', c2)          (* must_replace is false: untouched *)
+  else (wrap (bl ++ br) (Hook (Add l2 r2) args), c4).
+
 Fixpoint rw (e : expr) (c : nat) : expr * nat :=
   match e with
   | Add l r =>
       let '(l', c1) := rw l c in
       let '(r', c2) := rw r c1 in
-      match is_triv l', is_triv r' with
-      | true, true =>
-          if is_lit l' && is_lit r' then (Add l' r', c2)
-          else (Hook (Add l' r') [l'; r'], c2)
-      | true, false =>       (* right is effectful: left identifier must be hoisted too (literal stays) *)
-          if is_lit l' then (Hoist1 c2 r' (Hook (Add l' (Tmp c2)) [l'; Tmp c2]), S c2)
-          else (Hoist2 c2 l' (S c2) r' (Hook (Add (Tmp c2) (Tmp (S c2))) [Tmp c2; Tmp (S c2)]), S (S c2))
-      | false, true =>       (* left hoisted, right identifier/literal kept *)
-          (Hoist1 c2 l' (Hook (Add (Tmp c2) r') [Tmp c2; r']), S c2)
-      | false, false =>
-          (Hoist2 c2 l' (S c2) r' (Hook (Add (Tmp c2) (Tmp (S c2))) [Tmp c2; Tmp (S c2)]), S (S c2))
-      end
+      rw_add l' r' c2
   | CallE f a => let '(f', c1) := rw f c in let '(a', c2) := rw a c1 in (CallE f' a', c2)
+  | Par x => let '(x', c1) := rw x c in (Par x', c1)
   | _ => (e, c)
   end.
 
 (* source programs: no temps, no instrumentation *)
 Fixpoint src (e : expr) : Prop :=
   match e with
-  | Lit _ | Var _ => True
+  | Lit (VStr _) | Var _ => True            (* literals of the fragment are strings *)
+  | Lit _ => False
   | Add l r => src l /\ src r
   | CallE f a => src f /\ src a
+  | Par x => src x
   | _ => False
   end.
 
@@ -116,6 +166,7 @@ Fixpoint temps_in (lo hi : nat) (e : expr) : Prop :=
   | Tmp n => lo <= n < hi
   | Add l r => temps_in lo hi l /\ temps_in lo hi r
   | CallE f a => temps_in lo hi f /\ temps_in lo hi a
+  | Par x => temps_in lo hi x
   | Hoist2 n1 e1 n2 e2 b => lo <= n1 < hi /\ lo <= n2 < hi /\ temps_in lo hi e1 /\ temps_in lo hi e2 /\ temps_in lo hi b
   | Hoist1 n1 e1 b => lo <= n1 < hi /\ temps_in lo hi e1 /\ temps_in lo hi b
   | Hook f args => temps_in lo hi f /\ (fix go (l : list expr) : Prop := match l with [] => True | a :: r => temps_in lo hi a /\ go r end) args
